@@ -1,4 +1,5 @@
 import TantivyModel.Model.SSTable.AddrStore
+import TantivyModel.Model.SSTable.Index
 /-! `Dictionary::ord_to_term` on the BYTES of a dictionary file (version 3): footer → index region →
 block-address store → `binary_search_ord` → `get` → the framed block at that byte range → value
 block skipped → front-coded keys → the `(ord - first_ordinal)`-th key. The FST part of the index is
@@ -40,6 +41,25 @@ def openedOrdToTerm (skip : List UInt8 → List UInt8) (f : OpenedFile) (ord : N
     | some [RawBlock.plain p] => some ((decodeBlockKeys (skip p))[ord - a.firstOrd]?)
     | some [RawBlock.compressed _] => none
     | _ => some none
+
+/-- mirrors: Dictionary::term_ord_or_next on an opened file: block by key (FST answer passed in),
+the framed block at that byte range, value block skipped, keys decoded, `decode_up_to_or_next`,
+ordinal shifted by the block's first ordinal. Outer `none`: zstd-compressed or truncated block
+(not modelled). -/
+def fileTermOrdOrNext (geFirst : Key → Option Nat) (skip : List UInt8 → List UInt8) (f : OpenedFile)
+    (k : Key) : Option Hit :=
+  match fileBlockForKey geFirst f k with
+  | none => some (.next U64_MAX)
+  | some a =>
+    match readBlocks 1 ((f.data.take a.stop).drop a.start) with
+    | some [RawBlock.plain p] => some ((scanOrNext (decodeBlockKeys (skip p)) k 0).shift a.firstOrd)
+    | some [] => some ((scanOrNext [] k 0).shift a.firstOrd)
+    | _ => none
+
+/-- mirrors: Dictionary::term_ord -/
+def fileTermOrd (geFirst : Key → Option Nat) (skip : List UInt8 → List UInt8) (f : OpenedFile)
+    (k : Key) : Option (Option Nat) :=
+  (fileTermOrdOrNext geFirst skip f k).map Hit.exact?
 
 def fileOrdToTerm (skip : List UInt8 → List UInt8) (file : List UInt8) (ord : Nat) : Option (Option Key) :=
   openedOrdToTerm skip (openFile file) ord
